@@ -1,11 +1,92 @@
-import TucanProofs.Lemmas.Sort
-import TucanModel.Serialize
-/-! # C03 — property theorems (see DESIGN.md §5) -/
+import TucanProofs.Lemmas.RoundTripPipeline
+import TucanProofs.Lemmas.OracleNonempty
+import TucanProofs.Examples
+/-!
+# C03 — a TUCAN string reconstructs its molecule and is a fixed point of the pipeline
+
+Domain (`Graph.MolAtoms`): every atom is a chemistry-level atom (`sym = table[Z]`, invariant code
+`(Z, mass or 0, rad or 0)`, "no label" is absence, never 0) with an element symbol of the table and strictly
+positive mass / radical values — what the readers and the parser produce.  `hsize` excludes molecules with
+more than 10^4300 atoms (CPython's integer-literal limit).
+-/
 namespace Tucan
 
-/-- The tuple list written by the serializer is a function of the *set* of bonds: any two listings of
-the same normalised bonds give the same sorted list. -/
-theorem C03_tuples_listing_independent {l₁ l₂ : List (Nat × Nat)} (h : l₁.Perm l₂) :
-    l₁.mergeSort leNN = l₂.mergeSort leNN := sortNN_perm_eq h
+/-- **Reconstruction.**  `graph_from_tucan(tucan(G))` is `G` under a renaming of its atoms: the same element,
+isotope mass and radical on every corresponding atom, the same bonds, the same number of atoms; needs only
+that the oracle answers with a permutation (checked on every real call). -/
+theorem C03_roundtrip (order : Graph → List Nat) (hperm : ∀ r : Graph, r.WF → (order r).Perm r.labels)
+    (g : Graph) (hw : g.WF) (hs : g.Simple) (hmol : g.MolAtoms)
+    (hsize : (natRepr (g.numberOfNodes + 1)).length ≤ intMaxStrDigits)
+    (s : Str) (h : tucanOf order g = .ok s) :
+    ∃ (H : Graph) (τ : Nat → Nat), graphFromTucan s = .ok H ∧ Iso SameIdent τ g H ∧
+      H.numberOfNodes = g.numberOfNodes ∧ (∀ a ∈ g.labels, (H.nbrs (τ a)).length = (g.nbrs a).length) := by
+  obtain ⟨H, τ, hp, iso, hl, _, _, _⟩ := pipeline_roundtrip order hperm g hw hs hmol hsize s h
+  refine ⟨H, τ, hp, iso, iso.numberOfNodes, ?_⟩
+  intro a ha
+  have := (iso.nbrs a ha).length_eq
+  simpa using this
+
+/-- the emitted string is accepted by the parser (string level: it lexes and is a sentence of the grammar) -/
+theorem C03_emitted_string_parses (m : Graph)
+    (hsyms : ∀ s ∈ m.nodes.filterMap (·.attrs.sym), s ∈ elementSyms)
+    (hpos : ∀ n ∈ m.nodes, (∀ v, n.attrs.mass = some v → 0 < v) ∧ (∀ v, n.attrs.rad = some v → 0 < v)) :
+    ∃ toks, lex (serializedText m) = some toks ∧ parseTucan toks = some (astOf m) ∧ Sentence toks (astOf m) :=
+  serialize_parses m hsyms hpos
+
+/-- **Fixed point.**  Canonicalizing and serializing the parsed graph reproduces the identical string, for
+every oracle meeting the bliss contract. -/
+theorem C03_fixed_point (O : CanonOracle) (g : Graph) (hw : g.WF) (hs : g.Simple) (hmol : g.MolAtoms)
+    (hsize : (natRepr (g.numberOfNodes + 1)).length ≤ intMaxStrDigits)
+    (s : Str) (h : tucanOf O.order g = .ok s) :
+    ∃ H, graphFromTucan s = .ok H ∧ tucanOf O.order H = .ok s := by
+  obtain ⟨H, τ, hp, iso, hl, Hw, Hs, Hm⟩ := pipeline_roundtrip O.order O.perm g hw hs hmol hsize s h
+  refine ⟨H, hp, ?_⟩
+  have hchem : g.Chem := fun a ha x hx => (hmol a ha x hx).chem
+  have hne : H.labels ≠ [] := by
+    intro he
+    -- an empty result would mean an empty input, for which the pipeline does not return
+    have hn0 : g.numberOfNodes = 0 := by
+      rw [hl] at he
+      cases hn : g.numberOfNodes with
+      | zero => rfl
+      | succ k => rw [hn] at he; simp [List.range_succ] at he
+    have hg : g.labels = [] := by
+      have : g.labels.length = 0 := by simpa [Graph.numberOfNodes, Graph.labels] using hn0
+      exact List.eq_nil_of_length_eq_zero this
+    unfold tucanOf at h
+    cases hc : canonicalizeWith g O.order with
+    | error e => simp [hc, bind, Except.bind] at h
+    | ok v =>
+      obtain ⟨c, r, k⟩ := v
+      obtain ⟨p, hp', hr, _⟩ := canonicalize_unfold hc
+      obtain ⟨hpl, hpw, _, _, _⟩ := partition_spec copySpec mapAttrsSpec g .invariantCode hw hs p hp'
+      unfold refinePartitions refineLoop at hr
+      cases hq : partitionMoleculeByAttribute p .partition with
+      | error e => simp [hq, bind, Except.bind] at hr
+      | ok q =>
+        obtain ⟨hql, _, _, _, _⟩ := partition_spec copySpec mapAttrsSpec p .partition hpw
+          (partition_spec copySpec mapAttrsSpec g .invariantCode hw hs p hp').2.2.1 q hq
+        have : getNumberOfPartitions q = .error .valueError := by
+          unfold getNumberOfPartitions
+          have : q.nodes = [] := by
+            have : q.labels = [] := by rw [hql, hpl, hg]
+            simpa [Graph.labels] using this
+          simp [this]
+        simp [hq, this, bind, Except.bind] at hr
+  have hattrs : ∀ a ∈ H.labels, ∃ x, H.attrs? a = some x ∧ x.z.isSome ∧ x.inv.isSome := by
+    intro a ha
+    obtain ⟨x, hx⟩ := Graph.attrs?_some_of_mem ha
+    obtain ⟨z, hz, _, hi, _, _⟩ := (Hm a ha x hx).chem
+    exact ⟨x, hx, by simp [hz], by simp [hi]⟩
+  obtain ⟨s', hs'⟩ := pipeline_total O.order O.perm H Hw Hs hne hattrs
+  have := tucan_invariant O iso hchem hw hs Hw Hs h hs'
+  rw [this]; exact hs'
+
+theorem C03_oracle_contract_inhabited : Nonempty CanonOracle := CanonOracle.nonempty
+
+/-- non-vacuity: a concrete molecule meets all hypotheses -/
+example : exGraph.WF ∧ exGraph.Simple ∧ exGraph.MolAtoms ∧
+    (natRepr (exGraph.numberOfNodes + 1)).length ≤ intMaxStrDigits :=
+  ⟨exGraph_wf, exGraph_simple, exGraph_molAtoms, by decide⟩
 
 end Tucan
